@@ -548,6 +548,7 @@ package codecs
 //@   loop 0: decreases remaining
 //@ end
 //@ spec (*AV1Payloader).Payload
+//@   thorough-only
 //@   loop 0: invariant walk [C08]: 0 <= offset && offset <= len(payload) && mtu >= 2 && 0 <= obusInPacket && obusInPacket <= offset && (fresh(payloads) || cap(payloads) == 0) && len(payloads) >= 0 && (currentOBUPayload == nil || fresh(currentOBUPayload))
 //@   loop 0: invariant packets [C08]: av1Packets(payloads, len(payloads))
 //@   loop 0: invariant distinct [C08]: av1Distinct(payloads, len(payloads))
